@@ -376,7 +376,12 @@ class Parser():
                 pass
             stat = self._stat()
             if stat is None:
-                break
+                # (Lua 5.2: break is an ordinary statement. It may be
+                # followed by other statements of the same block.)
+                break_pos = self._pos
+                if self._accept(lexer.TokKeyword(b'break')) is None:
+                    break
+                stat = StatBreak(start=break_pos, end=self._pos)
             stats.append(stat)
 
         # Eat leading and intervening semicolons.
